@@ -393,7 +393,7 @@ PROPS = {
     ),
     "C11": dict(
         fuzz=dict(seconds=90),
-        jobs=lambda tier: both(6),
+        jobs=lambda tier: both(6 if tier == "quick" else 8),
         eval_keys=["round_trips"],
         rule="random trees (depth <= 4, <= 4 items per stack) over lists (incl. empty), ints (incl. MIN/MAX), booleans, parser-producible "
              "names, every registered instruction name, and - in a third of the cases - floats incl. non-finite, -0.0, values that round at the "
